@@ -191,7 +191,7 @@ func fwdExtOracle(p *pkt, o *obs) []string {
 		return []string{"unparseable"}
 	}
 	bad := []string{}
-	if p.hbh == 1 && (!v.hasHBH || len(v.hbhOpts) != 1 || v.hbhOpts[0] != optText(hbhOptType, hbhOptData)) {
+	if p.hbh >= 1 && (!v.hasHBH || len(v.hbhOpts) != 1 || v.hbhOpts[0] != optText(hbhOptType, hbhOptData(p.hbh))) {
 		bad = append(bad, "hbh-dropped")
 	}
 	if p.hbh == 0 && v.hasHBH {
@@ -243,6 +243,9 @@ func genFwdExt(g *runner, r *lib.Rand, n int) {
 			p.dt, p.da = 0, []byte{127, 0, 13, byte(7 + r.Intn(3))}
 		}
 		p.hbh = r.Intn(2)
+		if p.hbh == 1 && r.Chance(50) {
+			p.hbh = []int{2, 3, 4, 5, 6, 7, 12, 39, 40}[r.Intn(9)] // option sizes around the 4-byte line padding
+		}
 		if i < 8 { // every (hbh, e2e) shape in both regimes first
 			p.hbh = i & 1
 			p.zone = []string{"sw", "none"}[i>>1&1]
@@ -277,6 +280,6 @@ func genFwdExt(g *runner, r *lib.Rand, n int) {
 			}
 		}
 		badmac := p.dp == svcPort && p.mode == "srv" && p.hasAu && beU32(p.auth) == spiClient && p.mac != "-" && p.mac != "err" && lib.Hex(p.auth[12:]) != p.mac
-		g.run(p, fmt.Sprintf("fwdext:%s:zone=%s:hbh=%d:e2e=%d:auth=%s:dp=%s", p.mode, p.zone, p.hbh, p.e2e, authKind, portClass(p.dp)), badmac)
+		g.run(p, fmt.Sprintf("fwdext:%s:zone=%s:hbh=%d:e2e=%d:auth=%s:dp=%s", p.mode, p.zone, min(p.hbh, 2), p.e2e, authKind, portClass(p.dp)), badmac)
 	}
 }
